@@ -1034,6 +1034,7 @@ fn finish(
         let first = toks.first().map(|t| t.1).unwrap_or(0);
         let lead = src[region_start..region_end].len() - src[region_start..region_end].trim_start().len();
         let shift = region_start as isize + lead as isize - first as isize;
+        let mut taken: Vec<(usize, usize)> = Vec::new();
         for s in subs {
             let old = s[0].as_str().ok_or("subst old")?;
             let new = s[1].as_str().ok_or("subst new")?;
@@ -1047,6 +1048,12 @@ fn finish(
                 if (0..pat.len()).all(|k| toks[i + k].0 == pat[k]) {
                     let st = (toks[i].1 as isize + shift) as usize;
                     let en = (toks[i + pat.len() - 1].2 as isize + shift) as usize;
+                    if taken.iter().any(|(a, b)| st < *b && *a < en) {
+                        // already rewritten by an earlier substitution of this item
+                        i += 1;
+                        continue;
+                    }
+                    taken.push((st, en));
                     cx.rep(st, en, new);
                     n += 1;
                     i += pat.len();
